@@ -863,7 +863,8 @@ def run(ctx):
             cells = [(o, r) for o in plain for r in RESPONSES]
             cells += [(o, r) for o in (
                 shaped if cfg["recorder"] else ctx.rng.sample(shaped, 40))
-                for r in ARG_RESPONSES]
+                for r in ctx.rng.sample(ARG_RESPONSES,
+                                        2 if cfg["recorder"] else 1)]
         ctx.rng.shuffle(cells)
         hists.append(run_cell_history(ctx, cfg, cells, wd, i))
     # nested operations (provider-issued) under recorder / logging / statistics
